@@ -358,10 +358,16 @@ func lexString(text []byte, t *Tok) {
 				if p < len(text) && text[p] == '\n' {
 					p++
 				}
+				// a backslash followed by a raw line break (line continuation) is outside the
+				// statement: neither verdict nor extent is fixed
 				t.ValU = true
+				t.Unsp = true
 			default:
-				// unlisted escape (including line continuations): extent follows, value unspecified
+				// unlisted escape: extent follows, value unspecified
 				t.ValU = true
+				if IsLB(e) {
+					t.Unsp = true
+				}
 			}
 			continue
 		}
